@@ -257,6 +257,20 @@ Definition total_len (ps : list part) : nat := fold_right (fun p n => (List.leng
 Definition stitch (ps : list part) : option (list sample) :=
   match stitch_fuel (total_len ps) ps with [] => None | l => Some l end.
 
+(* multi-part product over several substreams: part n is indirect_cal_product_raw(name + n): EVERY substream must have
+   the sensor <substream>_product_<type><n> (Some), else the KeyError makes the whole part the empty sensor; a single
+   substream is passed through as is, several are concatenated and sorted *)
+Definition is_some {A} (o : option A) : bool := match o with Some _ => true | None => false end.
+Definition part_of_substreams (subs : list (option part)) : part :=
+  if forallb is_some subs then
+    match subs with
+    | [Some p] => p
+    | _ => merge_substreams (fmap (fun o => o) subs)
+    end
+  else [].
+Definition stitch_substreams (parts : list (list (option part))) : option (list sample) :=
+  stitch (map part_of_substreams parts).
+
 (* ------------------------------------------------------------------ product names *)
 Open Scope string_scope.
 Inductive request := RStr (s : string) | RList (l : list string).
@@ -355,6 +369,12 @@ Definition wire_14 (x : sx) : sx :=
                                        (fun d => nth d names []) tbl))
   | L [I 6; ps] =>
       match stitch (map (fun p => map sample_of_sx (to_list p)) (to_list ps)) with
+      | Some l => L [L (map sx_of_sample l)]
+      | None => L []
+      end
+  | L [I 61; parts] =>
+      let sub_of := fun o => match o with L [p] => Some (map sample_of_sx (to_list p)) | _ => None end in
+      match stitch_substreams (map (fun subs => map sub_of (to_list subs)) (to_list parts)) with
       | Some l => L [L (map sx_of_sample l)]
       | None => L []
       end
